@@ -91,6 +91,8 @@ def rel_alphabet(eng, ent, attr, cap=16, scalars=False):
         cur = sorted(cur) if isinstance(cur, set) else [cur]
         B = cur[:1] + [x for x in sorted(st.of_entity(a.target)) if x not in cur[:1]][:1]
     ops = [{'op': 'flush'}]
+    # one object written on its own by obj.flush() (the collections of its partners keep their pending bookkeeping)
+    for o in dict.fromkeys(A[:1] + B[:1]): ops.append({'op': 'flush', 'oid': o})
     def side(objs, at, others, full=True):
         out = []
         for o in objs[:1]:
